@@ -132,12 +132,12 @@ func cleanupUnderLeadershipChurn(r *vkit.R) {
 		vkit.WaitFor(30*time.Second, noCleanupGoroutine)
 		_ = srv.Limiter.Heartbeat(live)
 		if err := report(stable, live, 5); err != nil {
-			r.Violation("C18/churn/live-instance-refused-on-led-shard", "after the churn the live instance's report to an upstream of the never-lost shard was refused: "+err.Error(), nil)
+			violUnlessPremiseBroken(r, "C18/churn/live-instance-refused-on-led-shard", "after the churn the live instance's report to an upstream of the never-lost shard was refused: "+err.Error(), nil)
 		}
 		if st := srv.Handle.Store(0); st == nil {
-			r.Violation("C18/churn/store-of-never-lost-shard-gone", "the store of shard 0, whose leadership never changed, is gone after cleanup passes raced with leadership changes of other shards", nil)
+			violUnlessPremiseBroken(r, "C18/churn/store-of-never-lost-shard-gone", "the store of shard 0, whose leadership never changed, is gone after cleanup passes raced with leadership changes of other shards", nil)
 		} else if _, err := st.Get(stable, util.GenerateRateLimitConditionName(stable, live)); err != nil {
-			r.Violation("C18/churn/live-instance-condition-removed", "the live instance (fresh heartbeat before every pass) lost its condition while cleanup passes raced with leadership changes / registrations: "+err.Error(), nil)
+			violUnlessPremiseBroken(r, "C18/churn/live-instance-condition-removed", "the live instance (fresh heartbeat before every pass) lost its condition while cleanup passes raced with leadership changes / registrations: "+err.Error(), nil)
 		}
 		r.Eval(1)
 		r.Count("churn_scenarios", 1)
@@ -148,4 +148,13 @@ func cleanupUnderLeadershipChurn(r *vkit.R) {
 	})
 	r.Require(r.Counter("churn_leadership_changes_concurrent") >= int64(scen*iters) && r.Counter("churn_upstream_registrations_concurrent") >= int64(scen*maxNew) && r.Counter("churn_reports_concurrent") >= int64(scen*iters) && r.Counter("churn_cleanup_passes") >= int64(scen*100),
 		"too little activity concurrent with the cleanup passes in the churn scenarios")
+}
+
+// violUnlessPremiseBroken: see history.violate.
+func violUnlessPremiseBroken(r *vkit.R, sig, what string, witness interface{}) {
+	if bed.PremiseBroken() {
+		r.Count("reinit_premise_not_met", 1)
+		return
+	}
+	r.Violation(sig, what, witness)
 }
